@@ -4,4 +4,6 @@ from checks import proccommon
 
 def run(ctx):
     ctx.prove(families=("processor",))
-    proccommon.run_processor(ctx, "C02", "")
+    proccommon.run_processor(ctx, "C02", "SCALE (C02 only): remoteFirstFamily - 2100 messages on ONE Processor, each delivered other guardian's observation "
+                             "first, then the local observation and its loopback (quorum of a two-guardian set); completed entries aged out every 16 "
+                             "messages, the case id then changes (reset line, same Processor) so that state and store dumps stay small.")
